@@ -50,6 +50,8 @@ M = {
     "copyback": {"op": "copy", "set": "1:2", "dst": "INBOX"},
     "moveback": {"op": "move", "set": "1", "dst": "INBOX"},
     "noop": {"op": "noop"},
+    "capability": {"op": "capability"},
+    "lsub": {"op": "lsub"},
     "store3del": {"op": "store", "set": "3", "mode": "+", "flags": "\\Deleted"},
     "store2flag": {"op": "store", "set": "2", "mode": "+", "flags": "\\Flagged"},
     "selother": {"op": "select", "m": "other"},
@@ -69,7 +71,7 @@ def scn(name, prelude, **cmds):
 
 LIGHT = ("expunge|fetch3", "expunge|store3", "expunge|search", "expunge|uidfetch", "close|fetch2", "fetchbody|search",
          "select|select-inactive", "expunge|noop", "expunge|expunge", "reselect,noop|expunge", "expunge|fetchall slow reader",
-         "expunge|uidfetch slow reader", "close|search slow reader")
+         "expunge|uidfetch slow reader", "close|search slow reader", "expunge|capability,noop slow reader", "expunge|lsub,noop slow reader")
 
 
 def thorough_bound(name: str) -> int:
@@ -122,6 +124,10 @@ def scenarios(tier):
         dict(scn("expunge|fetchall slow reader", SEL_AB + DEL1, A=["expunge"], B=["fetchall"]), slow=["B"]),
         dict(scn("expunge|uidfetch slow reader", SEL_AB + DEL1, A=["expunge"], B=["uidfetch"]), slow=["B"]),
         dict(scn("close|search slow reader", SEL_AB + DEL1, A=["close"], B=["search"]), slow=["B"]),
+        # flush points that do not queue on the mailbox (CAPABILITY, LSUB, ...) of a slow reader that already has a
+        # notification waiting (A's STORE; no NOOP by B in the set-up), while another session's EXPUNGE adds more
+        dict(scn("expunge|capability,noop slow reader", SEL_AB + DEL1[:1], A=["expunge"], B=["capability", "noop"]), slow=["B"]),
+        dict(scn("expunge|lsub,noop slow reader", SEL_AB + DEL1[:1], A=["expunge"], B=["lsub", "noop"]), slow=["B"]),
     ]
     if tier != "quick":
         S += [
